@@ -1,6 +1,7 @@
 package props
 
 import (
+	"math/big"
 	"fmt"
 	"math"
 	"strconv"
@@ -286,6 +287,46 @@ func TestC14Numbers(t *testing.T) {
 			digits = rapid.SampledFrom([]string{"0", "7", "65534", "65535", "65536", "9223372036854775807", "4294967296", "10", "007"}).Draw(rt, "bdigits")
 		}
 		spelling := zeros + digits
+		if gen.Uniform(rt, "beyond", 8) == 0 {
+			// literals that no integer / no finite float can hold: they denote no
+			// value the machine has, so they are refused - or (for integers) become
+			// the nearest float; never another number
+			big := rapid.SampledFrom([]string{"9223372036854775808", "9223372036854775809", "9223372036854775817", "18446744073709551615", "18446744073709551616", "18446744073709551617",
+				"99999999999999999999", "1" + strings.Repeat("0", 30), "1" + strings.Repeat("0", 308) + ".5", "2" + strings.Repeat("0", 308) + ".0", "1" + strings.Repeat("9", 400) + ".25",
+				"17976931348623157" + strings.Repeat("0", 292) + ".0", "17976931348623159" + strings.Repeat("0", 292) + ".0"}).Draw(rt, "bigliteral")
+			sp := zeros + big
+			script := rapid.SampledFrom([]string{"return %s;", "return [%s > 0, %s];", "x = %s; return x;", "return - %s;", "if ( %s > 0 ) { return %s; } return \"not positive\";"}).Draw(rt, "bigform")
+			script = strings.ReplaceAll(script, "%s", sp)
+			c := &Case{Prop: "C14", Kind: "beyond-range", Script: script, NoOpt: rapid.Bool().Draw(rt, "noopt"), History: "none"}
+			res := eng.Quick(script, nil, nil, c.NoOpt)
+			col.Class("literal-beyond-range")
+			if res.Panic != nil {
+				violation(rt, "C14", c, "panic: %v", res.Panic)
+			}
+			if res.PrepareErr == nil && res.Err == nil {
+				// accepted: then it must be the number that was written
+				ok := false
+				if f, _, err := new(bigFloat).SetPrec(2000).Parse(big, 10); err == nil {
+					nearest, _ := f.Float64()
+					var got []lang.Value
+					if res.Val.K == lang.KArray {
+						got = res.Val.A
+					} else {
+						got = []lang.Value{res.Val}
+					}
+					for _, g := range got {
+						if g.K == lang.KFloat && !math.IsInf(g.F, 0) && (g.F == nearest || g.F == -nearest) {
+							ok = true
+						}
+					}
+				}
+				if !ok {
+					violation(rt, "C14", c, "the literal %s is beyond what the machine can hold, yet the script was accepted and gave %s", clip(sp, 60), res.Val.Describe())
+				}
+			}
+			col.Case(script, true, func() interface{} { return map[string]string{"script": clip(script, 200)} })
+			return
+		}
 		switch gen.Uniform(rt, "form", 5) {
 		case 4:
 			// several literals in one script, close to each other: each denotes
@@ -595,3 +636,5 @@ func TestC14Termination(t *testing.T) {
 	})
 	_ = eng.FieldOK
 }
+
+type bigFloat = big.Float
